@@ -327,7 +327,7 @@ func runC18(w *World) {
 	}
 	hc := newHistChecker(w, inst, newModel(), "C18")
 	hc.exact = false
-	w.stepHooks = append(w.stepHooks, hc.stepHook, lockDiscipline(w, inst, "C18"))
+	w.stepHooks = append(w.stepHooks, hc.stepHook, lockDiscipline(w, inst, "C18"), auditHook(w, func() *Inst { return n.inst }, "C18"))
 	rc := &restartCtx{w: w, n: n, class: "C18", acked: map[string]bool{}, hc: hc}
 
 	nOther := 1 + w.knob("others", 3)
